@@ -25,6 +25,7 @@ func Root() string
 func Home() string
 func MapOrderNondet()
 
+func Capture(f func()) string
 func Run(argv ...string) Result
 func SetIntFlag(name string, v int)
 func SetClock(unixDigits string, offsetSec int)
